@@ -28,6 +28,27 @@ def main():
         old = embed.set_sizes([BT, TS], leaf, internal)
     rng = random.Random(job['seed'])
     nk = job['nkeys']
+    if job.get('subargs'):
+        # keys and values offered as instances of subclasses of int / float / bytes (bool for 0 and 1)
+        from harness.workers.state_worker import SubEmb
+        emb = SubEmb(emb)
+    mutvals = bool(job.get('mutvals')) and fam[1] == 'O'
+    if mutvals:
+        # values are mutable objects (one-element lists holding the rank): `v = t[k]; change v in place; t[k] = v` is how
+        # a change inside a plain mutable value is announced - storing the very object that is already there counts
+        class _MutEmb:
+            def __init__(self, e):
+                self.e = e
+
+            def val(self, r):
+                return [r]
+
+            def rv(self, x):
+                return x[0] if isinstance(x, list) and len(x) == 1 else 'val?%r' % (x,)
+
+            def __getattr__(self, n):
+                return getattr(self.e, n)
+        emb = _MutEmb(emb)
     traces, structs = [], []
     sent = object()
     use_jar = bool(job.get('jar'))
@@ -147,6 +168,10 @@ def main():
                         op = 'setitem'
                     if op == 'insert' and not hasattr(t, 'insert'):
                         op = 'setdefault'
+                    if mutvals and op == 'setitem' and rng.random() < 0.6 and rk in t:
+                        # the stored object itself, changed in place and stored again (for the sorted map: t[k] = v)
+                        rv = t[rk]
+                        rv[0] = v
                     if op == 'setitem':
                         t[rk] = rv; res = ['ok']
                     elif op == 'insert':
